@@ -436,10 +436,12 @@ func runLoopBehindLock(gs []gInfo) bool {
 }
 
 // deadlockSignature: every goroutine of the connection is parked, at least one of them on a
-// sync.Mutex, and none of them waits for the environment (the in-memory conn). Only these
-// goroutines or the environment could ever wake them (the server is configured without
-// tickers or timeouts), so no progress is possible. Returns "" when that is not the case.
-func deadlockSignature(gs []gInfo) string {
+// sync.Mutex, and none of them waits for the environment (the in-memory conn) - except that
+// the read loop may be waiting for the next client frame on an empty buffer (readerIdle),
+// which the harness will not send before the server is quiet. Only these goroutines or the
+// environment could ever wake them (the server is configured without tickers or timeouts),
+// so the goroutine on the mutex can never proceed. Returns "" when that is not the case.
+func deadlockSignature(gs []gInfo, readerIdle bool) string {
 	if len(gs) == 0 {
 		return ""
 	}
@@ -453,7 +455,11 @@ func deadlockSignature(gs []gInfo) string {
 		default:
 			return "" // running, runnable, syscall, IO wait, ...
 		}
-		if strings.Contains(g.text, "main.(*memConn)") {
+		if strings.Contains(g.text, "main.(*memConn).Read") {
+			if !readerIdle {
+				return ""
+			}
+		} else if strings.Contains(g.text, "main.(*memConn)") {
 			return ""
 		}
 		sig = append(sig, g.id+":"+g.state)
@@ -488,7 +494,7 @@ func (s *wsSession) quiesce() string {
 				return "idle"
 			}
 		}
-		if d := deadlockSignature(gs); d != "" && s.conn.writersStalled() == 0 {
+		if d := deadlockSignature(gs, blocked); d != "" && s.conn.writersStalled() == 0 {
 			if d == lastDead {
 				deadSeen++
 			} else {
